@@ -324,9 +324,9 @@ def check(tier, seed):
         used = singles + doubles[:12000]
         nbytes, ncli = 4000, 150
     else:
-        r, ms = tlc_mutants({1, 2, 3, 4}, {1, 2, 3, 4})
+        r, ms = tlc_mutants({1, 2, 3, 4}, {1, 3})
         used = ms
-        nbytes, ncli = 40000, 1500
+        nbytes, ncli = 30000, 1000
     log("wf: %d mutants from TLC (%d used), %.0fs" % (len(ms), len(used), r.wall))
     pop = []
     for k, m in enumerate(used):
@@ -421,7 +421,7 @@ def check(tier, seed):
              "seeded byte-level mutants (delete/insert/duplicate/swap spans, unbalanced delimiters, truncation, stray quotes, "
              "non-ASCII) of those, of the layout bases and of the %d .lalrpop files of the repository; CLI sample incl. non-UTF-8 "
              "bytes; distinct = distinct file contents (SHA-1); every case is non-trivial (a near-valid or invalid grammar)" % (
-                 "a seeded sample of" if tier == "quick" else "all", len(repo_corpus())))
+                 "a seeded sample of 12000 of the (base expr)" if tier == "quick" else "all (bases expr and extern)", len(repo_corpus())))
 
 
 def replay(obj):
